@@ -13,6 +13,7 @@ Inductive sitekind :=
 | SUnsafeSendSync
 | SCtxUse (cloned : bool)                (* use of the global decimal context: cloned before it is handed to the C library? *)
 | SFfiCtx (private_copy : bool)          (* call of a C function that takes a context *)
+| SField (shared_mutable : bool)          (* struct field of type Mutex / Atomic* / UnsafeCell / Once* in an evaluation-path crate *)
 | SMissingFile.
 
 Record site := { sfile : string; sline : N; skind : sitekind; seval : bool; sfn : string }.
@@ -25,6 +26,7 @@ Definition eval_site_ok (s : site) : bool :=
   | SStaticMut | SThreadLocal | SUnsafeSendSync | SMissingFile => false
   | SCtxUse c => c                          (* every decimal call gets its own context copy *)
   | SFfiCtx p => p
+  | SField m => negb m
   end.
 
 (* the lock acquisitions an evaluation may perform, in source order *)
@@ -36,3 +38,20 @@ Definition is_eval_read (s : site) : bool := match skind s with SLock false _ =>
 Definition is_build_write (s : site) : bool := match skind s with SLock true _ => negb (seval s) | _ => false end.
 Definition is_ctx_use (s : site) : bool := match skind s with SCtxUse _ => true | _ => false end.
 Definition is_static (s : site) : bool := match skind s with SStatic _ => true | _ => false end.
+
+(* ---------------- search for a stuck schedule of the program a call path describes ---------------- *)
+(* one thread running the nested call: acquire along the path, one step, release in reverse order *)
+Definition path_thread (path : list (bool * lockid)) : thread unit nat :=
+  {| prog := prog_of_sites (fun _ p => S p) path; priv := 0 |}.
+(* the two witness shapes of C20_writer_deadlocks: a single thread re-entering a lock it holds for writing (or upgrading),
+   and thread 0 stopped after k steps while thread 1 runs into a wait, then thread 0 continuing into the waiting writer *)
+Definition pair_sched (n k : nat) : list tid := (repeat 0 k ++ repeat 1 n ++ repeat 0 n ++ repeat 1 n)%list.
+Definition find_stuck2 (p0 p1 : list (bool * lockid)) : option (list tid) :=
+  let t0 := path_thread p0 in
+  let t1 := path_thread p1 in
+  let n := (List.length (prog t0) + List.length (prog t1))%nat in
+  find (fun sched => stuckb [0; 1] (run sched (init tt [t0; t1]))) (map (pair_sched n) (seq 0 (S n))).
+Definition find_stuck (path : list (bool * lockid)) : option (list tid) :=
+  let t := path_thread path in
+  let n := List.length (prog t) in
+  if stuckb [0] (run (repeat 0 n) (init tt [t])) then Some (repeat 0 n) else find_stuck2 path path.
